@@ -52,6 +52,8 @@ def draw_recording(rng, idx, fmt=None):
          "eol": "crlf" if (fmt in F.TEXT and rng.random() < 0.3) else "lf"}
     if fmt not in F.TEXT and rng.random() < 0.3:
         s["bands"] = {c: rng.choice(["BH", "HH", "EH", "SH", "HN"]) for c in ("N", "E", "Z")}
+    if fmt in ("sac_le", "sac_be") and rng.random() < 0.3:
+        s["sac_orders"] = {c: rng.choice(["<", ">"]) for c in ("N", "E", "Z")}
     if fmt in ("mseed1", "mseed3"):
         s["encoding"] = rng.choice(["STEIM2", "STEIM1", "INT32"])
         if s["big"] and s["encoding"] != "INT32":
